@@ -1622,7 +1622,7 @@ def gen_cl_enc(r, n, tier):
     for w in ("W", "Wi"):
         for fr in ("t", "r"):
             yield f"cl {fr} d000 q16 m0 N,E,{w},R0.a.rh.1.50.0.1,A60,N,R0.b.rh.1.50.0.1,A60"
-            yield f"cl {fr} d000 q16 m0 N,E,R0.a.wr.1.50.9.4660,A60,{w},R0.b.wC.1.50.3.10110,R0.c.rh.1.50.0.1,A60"
+            yield f"cl {fr} d000 q16 m0 N,E,R0.a.wr.1.50.9.4660,A60,{w},R0.b.wC.1.50.3.10110,N,R0.c.rh.1.50.0.1,A60"
     for kind, args in (("wc", "9.1"), ("wc", "65535.0"), ("wr", "9.4660"), ("wr", "65535.65535")):
         for fr in ("t", "r"):
             yield f"cl {fr} d000 q16 m0 N,E,R0.a.{kind}.7.50.{args},A60"
